@@ -1,7 +1,7 @@
 """Finite-sample, distribution-free bands and the per-run false-alarm budget.
 
-Every statistical comparison is made at DELTA_CMP = 1e-13; a run may contain at most
-MAX_COMPARISONS = 10_000 of them, so the probability that a run on correct code reports a
+Every statistical comparison is made at DELTA_CMP = 1e-14; a run may contain at most
+MAX_COMPARISONS = 100_000 of them, so the probability that a run on correct code reports a
 statistical violation is below DELTA_RUN = 1e-9 (union bound).  Monitors count their
 comparisons with `spend()`; exceeding the cap is reported as inconclusive, never ignored.
 """
@@ -12,7 +12,7 @@ import numpy as np
 from scipy import stats as _st
 
 DELTA_RUN = 1e-9
-MAX_COMPARISONS = 10_000
+MAX_COMPARISONS = 100_000
 DELTA_CMP = DELTA_RUN / MAX_COMPARISONS
 
 
